@@ -244,6 +244,24 @@ def _check_file(nt, tf, path, subgrids, case):
         if not (abs(t[0] - want_t[0]) <= 1e-12 and abs(t[1] - want_t[1]) <= 1e-12):
             raise Fail("ntv2_2d does not add the latitude shift and subtract the positive-west longitude shift (opposite in reverse)",
                        expected=want_t, observed=dict(ctx, forward=fwd, result=t, shifts=res[:2]), bucket="ntv2_2d sign")
+    # (d) the same position written in another numeric form: whole degrees that lie inside the first sub-grid, handed over as
+    #     Python ints and as numpy integers (and as numpy float64), give what the floats give
+    sg0 = subgrids[0]
+    s_lat, n_lat, e_long, w_long = NF.extents(sg0)
+    la = math.ceil((s_lat + 1.0) / 3600.0)
+    lo = -math.ceil((e_long + 1.0) / 3600.0)
+    if la * 3600.0 < n_lat - 1.0 and -lo * 3600.0 < w_long - 1.0:
+        for method in ("bilinear", "bicubic"):
+            for fwd in (True, False):
+                ref = tf.ntv2_2d(g, float(la), float(lo), fwd, method)
+                for form, (a1, a2) in (("int", (int(la), int(lo))), ("numpy int64", (np.int64(la), np.int64(lo))),
+                                       ("numpy float64", (np.float64(la), np.float64(lo))), ("int latitude only", (int(la), float(lo)))):
+                    t = tf.ntv2_2d(g, a1, a2, fwd, method)
+                    if not (abs(t[0] - ref[0]) <= 1e-12 and abs(t[1] - ref[1]) <= 1e-12):
+                        raise Fail("ntv2_2d gives another position when the same whole-degree latitude / longitude are given as %s" % form,
+                                   expected={"as floats": ref}, observed={"result": t, "lat": la, "lon": lo, "method": method, "forward": fwd},
+                                   bucket="ntv2_2d numeric form")
+        metric("whole-degree positions inside the grid", 1)
     metric("interp_err_over_tol", worst)
 
 
